@@ -17,6 +17,13 @@ class C02(InterpProp):
         return gen.Knobs(nested_targets=0.55, p_orth=0.45, p_history=0.45, p_guard=0.3,
                          max_states=rnd.choice([10, 16, 22]), trans_per_owner=2.0, history_focus=0.5)
 
+    def check_other(self, op, ob, prev_world, gh, res):
+        if op[0] == 'create' and isinstance(ob['r'], dict) and 'wf' in ob['r']:
+            # the hypothesis of C02.legal_preserved_partial, decided by wfB (Lean) and wf_json (Python)
+            res.features.add('wf:%s' % ob['r']['wf'])
+            if not ob['r']['wf']:
+                res.error = 'the generator promised a W1-W8 statechart but wfB says it is not well-formed'
+
     def check_exec(self, info, res):
         r, gh, sc = info['r'], info['ghost'], info['sc']
         if not gh.clean:
@@ -56,3 +63,6 @@ class C02(InterpProp):
                                         for a in sc.ancestors_for(t.target)) and t.target not in info['cfg0']:
                         res.features.add('target-nested-in-region')
             res.features.add('micro%d' % min(len(r['step']['steps']), 6))
+            nt = len([m for m in r['step']['steps'] if m['transition'] is not None])
+            # covered by the theorem (at most one planned step) / by the tie only (one transition per region)
+            res.features.add('planned:single' if nt <= 1 else 'planned:multi')
